@@ -91,11 +91,11 @@ def cbor_hostile(rng):
             b"\x9b\xff\xff\xff\xff\xff\xff\xff\xff", b"\xbb\x7f\xff\xff\xff\xff\xff\xff\xff", b"\x7b\x7f\xff\xff\xff\xff\xff\xff\xff\x61", b"\x81" * 2000 + b"\x00",
             b"\x9f" * 1500, b"\xbf\x61\x61" * 600, b"\xd8\x28\x82\x82\x02\x02\x84\x01\x02\x03\x04", b"\xd9\x04\x10\x82\x82\x02\x02\x84\x01\x02\x03\x04",
             b"\xd8\x28\x82\x82\x1b\xff\xff\xff\xff\xff\xff\xff\xff\x02\x80", b"\xd8\x28\x82\x80\x80", b"\xd8\x28\x80"]
-    out += cbor_mdarrays()
+    out += cbor_mdarrays((4,) if getattr(rng, 'quick_tier', True) else (4, 6))
     return out
 
 
-def cbor_mdarrays():
+def cbor_mdarrays(counts=(4,)):
     """RFC 8746 multi-dimensional arrays (tags 40 row-major / 1040 column-major) over every typed-array storage (tags 64..87) and a classical
     array, with extents that match, are off by one, are zero, are huge, or only match after wrapping: a product of extents, or that product
     times the element size, that is congruent to the real element count modulo 2^64"""
@@ -105,7 +105,7 @@ def cbor_mdarrays():
     M = 2 ** 64
     for md in (b"\xd8\x28", b"\xd9\x04\x10"):
         for tag, es in ELEM.items():
-            for count in (4, 6):
+            for count in counts:
                 storage = b"\xd8" + bytes([tag]) + binfmt.cbor_head(2, count * es) + bytes((7 * i + 1) % 251 for i in range(count * es))
                 exts = [[2, count // 2], [count], [count + 1], [count - 1], [0], [count, 0], [1, count, 1], [M - 1], [2 ** 63, 2], [2 ** 32, 2 ** 32], [2 ** 32, 2 ** 32, count]]
                 for k in range(1, min(es, 8)):
